@@ -1961,6 +1961,9 @@ class Transaction(object):
         lock_script = to_bytes(lock_script)
         if output_n is None:
             output_n = len(self.outputs)
+        if isinstance(value, (str, Value)):
+            # An amount given as text or Value object is an amount of coins, like for the Output class
+            value = value_to_satoshi(value, network=self.network)
         if not float(value).is_integer():
             raise TransactionError("Output must be of type integer and contain no decimals")
         if lock_script.startswith(b'\x6a'):
